@@ -2,7 +2,7 @@
 import PsdVerif.Model.Globals
 namespace PsdVerif.Generated.Globals
 open PsdVerif.Globals
-/-- module-level / class-level mutable objects of src/psd_tools with their run-time writers and readers -/
+/-- module-level / class-level state of src/psd_tools with its run-time writers and readers -/
 def cells : List Cell := [
   { name := "psd_tools.api.adjustments:TYPES", kind := .registry, writtenAtRuntime := false, readObservably := true },
   { name := "psd_tools.api.effects:_TYPES", kind := .registry, writtenAtRuntime := false, readObservably := true },
